@@ -106,6 +106,8 @@ class Session:
         # a wavefront that carries tilt from its creation, and a plane given by a mask only (scalar amplitude and OPD)
         self.pool['W2'] = lentil.Wavefront(2.0 ** -7, tilt=[1e-4, -5e-5]) * self.pool['P1']
         self.pool['P3'] = lentil.Pupil(mask=(m != 0).astype(int), pixelscale=0.5, focal_length=4.0)
+        # an image-plane element with a sampled OPD (a field stop with a phase error)
+        self.pool['I1'] = lentil.Image(amplitude=self.pool['A1'].copy(), opd=self.pool['O1'] * 2.0, mask=(m != 0).astype(int), pixelscale=0.5)
 
     # -- recording -----------------------------------------------------------------------------------
     def call(self, name, fn, arg_ids, params, store=None):
@@ -184,6 +186,14 @@ class Session:
             ('fit_tilt_copy', lambda: p['P1'].fit_tilt(inplace=False), ['P1'], ()),
             ('fit_tilt_inplace', lambda: p['P1'].fit_tilt(inplace=True), ['P1'], ()),
             ('plane_copy', lambda: p['P1'].copy(), ['P1'], ()),
+            # the caller goes on to EDIT the plane that fit_tilt(inplace=False) / copy() handed back: that is its own plane to edit
+            ('fit_tilt_copy_then_edit', lambda: (lambda r: (setattr(r, 'opd', np.asarray(r.opd) * 0.0), setattr(r, 'amplitude', np.asarray(r.amplitude) * 2.0), 1)[-1])
+             (p['P1'].fit_tilt(inplace=False)), ['P1'], ()),
+            ('fit_tilt_copy_then_edit', lambda: (lambda r: (setattr(r, 'opd', np.asarray(r.opd) * 0.0), setattr(r, 'amplitude', np.asarray(r.amplitude) * 2.0), 1)[-1])
+             (p['I1'].fit_tilt(inplace=False)), ['I1'], ('image',)),
+            ('fit_tilt_copy_then_edit', lambda: (lambda r: (setattr(r, 'opd', np.asarray(r.opd) * 0.0), setattr(r, 'amplitude', np.asarray(r.amplitude) * 2.0), 1)[-1])
+             (p['P3'].fit_tilt(inplace=False)), ['P3'], ('maskonly',)),
+            ('multiply', lambda: l.Wavefront(2.0 ** -7, ptype='image') * p['I1'], ['I1'], ('i1',)),
             ('rescale', lambda: p['P1'].rescale(1.5), ['P1'], (1.5,)),
             ('resample', lambda: p['P1'].resample(0.25), ['P1'], (0.25,)),
             ('dft2', lambda: l.fourier.dft2(p['Z1'], 0.2, shape=self.shape), ['Z1'], (0.2,)),
